@@ -315,6 +315,8 @@ def _boundary_spans():
             if B >= MAXC:
                 B = MAXC - (1 << 17)
             out += [(B - 3, B - 1), (B - 2, B), (B - 1, B + 2), (B, B + 3), (B + 1, B + 2)]
+            # one-base children on either side of / across the boundary (a shortened bin set would lose exactly these)
+            out += [(B - 1, B), (B, B + 1), (B - 1, B + 1)]
     out += [((1 << 26) - 2, (1 << 26) + 2), (3 * (1 << 26) - 1, 3 * (1 << 26) + 1), (MAXC - 5, MAXC - 1), (MAXC - 2, MAXC + 3), (MAXC + 1, MAXC + 4)]
     return sorted(set(out))
 
